@@ -128,6 +128,22 @@ class ScriptedMixin:
 # kernel parties
 # ---------------------------------------------------------------------------
 
+def _perm_schema(self, schema):
+    """Seeded permutation of the insertion order of ports and variables
+    (C04: listing order is moot)."""
+    perm = self._parameters.get('perm')
+    if perm is None:
+        return schema
+    from dst.rng import Rng
+
+    def rec(d, rng):
+        if not isinstance(d, dict):
+            return d
+        keys = rng.shuffle(list(d.keys()))
+        return {k: rec(d[k], rng) for k in keys}
+    return rec(schema, Rng(perm))
+
+
 class KProc(ScriptedMixin, Process):
     """Kernel process.
 
@@ -149,14 +165,15 @@ class KProc(ScriptedMixin, Process):
     def ports_schema(self):
         s = self.spec
         schema = self._base_schema()
+        noemit = s.get('noemit') or []
         schema['acc'] = {
-            v: {'_default': 0, '_emit': True} for v in s.get('vars', [])}
+            v: {'_default': 0, '_emit': v not in noemit} for v in s.get('vars', [])}
         fv = s.get('fvars') or []
         if fv:
             schema['flags'] = {
                 v: {'_default': True, '_emit': True, '_updater': 'set'}
                 for v in fv}
-        return schema
+        return _perm_schema(self, schema)
 
     def _script_update(self, k, timestep, states):
         s = self.spec
@@ -187,13 +204,14 @@ class KStep(ScriptedMixin, Step):
     def ports_schema(self):
         s = self.spec
         schema = self._base_schema()
+        noemit = s.get('noemit') or []
         schema['acc'] = {
-            v: {'_default': 0, '_emit': True} for v in s.get('vars', [])}
+            v: {'_default': 0, '_emit': v not in noemit} for v in s.get('vars', [])}
         schema['out'] = {
             s['name'] + '_n': {'_default': 0, '_emit': True, '_updater': 'set'},
             s['name'] + '_sum': {'_default': 0, '_emit': True, '_updater': 'set'},
         }
-        return schema
+        return _perm_schema(self, schema)
 
     def _script_update(self, k, timestep, states):
         s = self.spec
